@@ -12,4 +12,5 @@ CONSTANTS
   AbortAfterPartial = TRUE
   EndMarkerOnlyOnSuccess = TRUE
   CopyErrorReturned = TRUE
+  DumpRowErrorsReturned = TRUE
 INVARIANTS TypeOK Consistent Complete CutIsError GateReleased
